@@ -137,6 +137,7 @@ CLI_TEMPLATES = [
     ("%Count({a})-%Count({a})-%Name()", 2),
     ("%Pad(1, left){{%Count({a})}}-%Name()", 1),
     ("%C()-%Name()", 1),           # through an alias  C=%Count(args)
+    ("%C()-%C()-%Name()", 2),      # the alias twice: two counters, like the tag written twice
     ("x|%Default(%Count({a}))|%Upper()|%Remove('X') -%Name()", None),
 ]
 
@@ -150,9 +151,10 @@ def gen_count_cli(rng, n, tier):
         step = rng.choice([1, 2, 10])
         width = rng.choice([0, 0, 2, 4])
         common = rng.random() < 0.3
-        tmpl_i = rng.randrange(4)
+        tmpl_i = rng.randrange(5)
         yield {"spec": spec, "roots": roots, "start": start, "step": step, "width": width, "common": common,
-               "template": tmpl_i, "recursive": rng.random() < 0.7, "invert": rng.random() < 0.3}
+               "template": tmpl_i, "recursive": rng.random() < 0.7, "invert": rng.random() < 0.3,
+               "verbose": rng.random() < 0.3}
 
 
 def impl_count_cli(case):
@@ -169,6 +171,8 @@ def impl_count_cli(case):
             args.append("-r")
         if case["invert"]:
             args.append("-si")
+        if case.get("verbose"):
+            args.append("-v")      # what is logged must not change what is done
         out, err, rc = common.run_cli(args)
         after = common.snapshot(root)
         files_before = sorted(k for k, v in before.items() if v is not None)
